@@ -132,6 +132,8 @@ def run(F, chk):
     check_progress(F, G5)
     G7 = chk.rule('G7', 'search paging: the loop counter is advanced exactly once after each examined element and the continuation returned is the counter itself')
     check_paging(F, G7)
+    G8 = chk.rule('G8', 'index builder: the processed marker advances exactly to the end of what was filtered')
+    check_builder_progress(F, G8)
 
 
 FMT_SINK = re.compile(r'^core::fmt::rt::Argument::<.*>::new_|^core::fmt::Arguments|^std::fmt::Arguments')
@@ -398,3 +400,63 @@ def check_paging(F, G7):
                 G7.violation(('counter-advance', b.path, 'inc%d' % k), 'search paging: the loop counter `%s` is advanced %d times between examining an element and leaving the loop on some path' % (counter, k),
                              where=b.loc(None), witness={'block_path': ex.witness(x, st)[-30:]})
     G7.floor('search functions with an examination loop', n, 1)
+
+
+# ---------------------------------------------------------------------------------------------
+# G8: the index builder marks as processed exactly what it filtered
+
+def check_builder_progress(F, G8):
+    """Under filters_active every store to all_msgs_last_processed_len must be
+    offset + (end of a slice of the new messages that was handed to the matcher), or an index taken out
+    of the matcher's result (first unwanted match).  Anything else marks messages as processed that were
+    never filtered (their matches never reach the filtered index)."""
+    b = F.get('adlt::utils::remote_utils::process_stream_new_msgs')
+    if b is None:
+        G8.violation(('anchor-lost', 'process_stream_new_msgs'), 'index builder not found')
+        return
+    G8.fn(b.path)
+    cfg = CFG(b)
+    E = ExprBuilder(cfg, fold_named=True)
+    # parameter names by position: (stream, new_msgs_offset, new_msgs, max_chunk_size)
+    msgs_param = None
+    off_param = None
+    for i, t in enumerate(b.arg_types(), start=1):
+        if t.startswith('&[adlt::dlt::DltMessage]'):
+            msgs_param = b.name_of(i)
+        elif t == 'usize' and off_param is None:
+            off_param = b.name_of(i)
+    ends = []
+    for blk in b.calls():
+        t = blk.term
+        if t.callee.path.endswith('::index') and len(t.args) > 1:
+            base = show(E.operand(t.args[0]))
+            if msgs_param and msgs_param in base:
+                r = E.operand(t.args[1])
+                if isinstance(r, tuple) and r[0] == 'agg' and r[1].endswith('Range::Range') and len(r[2]) == 2:
+                    ends.append(r[2][1])
+    G8.floor('slices of the new messages handed to the matcher', len(ends), 2)
+    n = 0
+    for blk in b.blocks:
+        if blk.cleanup:
+            continue
+        for s in blk.stmts:
+            if s.k == 'assign' and any(e['k'] == 'f' and e['n'] == 'all_msgs_last_processed_len' and e.get('o') == SC for e in s.place.p):
+                under = any(t is True and isinstance(c, tuple) and c[0] == 'place' and c[-1] == '.filters_active' for (c, t, D) in guards.known(cfg, E, blk.i))
+                if not under:
+                    continue
+                n += 1
+                G8.sites += 1
+                e = E.rvalue(s.rv)
+                ok = False
+                if isinstance(e, tuple) and e[0] == 'bin' and e[1] == 'Add' and e[2] == ('place', off_param) and e[3] in ends:
+                    ok = 'offset + end of a filtered slice'
+                se = show(e)
+                if not ok and 'Index::index(' in se and 'Fn::call(' in se and '{closure#' in se and not se.startswith('Add('):
+                    ok = 'index of the first unwanted match taken from the matcher result'
+                if ok:
+                    G8.ok(sample={'store_at': b.loc(s.sp), 'value': se[:110], 'why': ok})
+                else:
+                    G8.violation(('progress-beyond-filtered', b.path, re.sub(r'[^A-Za-z_]+', '_', se)[:50]),
+                                 'the index builder sets all_msgs_last_processed_len = %s at %s: not offset + end of a slice that was actually filtered (filtered slice ends: %s) - messages beyond the filtered chunk are marked processed and never reach the filtered index' %
+                                 (se[:100], b.loc(s.sp), [show(x)[:50] for x in ends]), where=b.loc(s.sp))
+    G8.floor('progress stores under filters_active in the index builder', n, 3)
